@@ -161,13 +161,20 @@ var maxSteps int64
 // guard runs f, turning a panic into a report; budget > 0 bounds the scheduling points f may pass (0: no bound).
 // Budgets nest: an inner guarded call has its own and the enclosing one resumes afterwards.
 func guard(f func(), budget int64) (stack string, panicked bool) {
+	// under the cooperative scheduler several guarded calls are in flight at once (one per thread) and the
+	// budget is one global counter: leave it alone there (the scheduler has its own horizon per execution)
+	budgeted := rt.Sched == nil
 	prev := rt.Budget
-	rt.Budget = budget
+	if budgeted {
+		rt.Budget = budget
+	}
 	defer func() {
-		if budget > 0 && budget-rt.Budget > maxSteps {
-			maxSteps = budget - rt.Budget
+		if budgeted {
+			if budget > 0 && rt.Budget > 0 && budget-rt.Budget > maxSteps {
+				maxSteps = budget - rt.Budget
+			}
+			rt.Budget = prev
 		}
-		rt.Budget = prev
 		if r := recover(); r != nil {
 			panicked = true
 			if _, ok := r.(rt.BudgetExhausted); ok {
